@@ -163,10 +163,9 @@ class StatusMonitor:
                 self.log.warning("No stage weight for stage %s. Default to %lf\n" % (stage, fallbackWeight))
                 weights.append(fallbackWeight * 1000)
 
-        # VV: adding floats is hard, let's assume that there're at most 2 decimals
-        int_weights = [int(e * 1000) for e in weights]
-
-        if reduce(operator.add, int_weights) != 1000 or min(weights) < 0:
+        # VV: adding floats is hard: compare the sum with a tolerance instead of truncating each weight
+        #     (int(0.57 * 1000) is 569). Written so that nan/inf weights are replaced too
+        if not (abs(reduce(operator.add, weights) - 1.0) <= 1e-6 and min(weights) >= 0):
             self.log.warning("Stage weights do not add to one: %s = %3.2lf\n" % (weights, reduce(operator.add, weights)))
             self.log.warning("All stage-weights will default to %3.2lf\n" % fallbackWeight)
             weights = [fallbackWeight]*len(self.commands)
